@@ -170,8 +170,8 @@ def link_destination_roundtrip(viol, maxlen=4):
                 if r is not None:
                     return r
         return None
-    for d in _strings(["a", "(", ")", "<", ">", " ", "\\", "/", "_"], maxlen):
-        if d.startswith(" ") or d.endswith(" ") or "\\" in d and not d.replace("\\", "a").isalnum() and False:
+    for d in _strings(["a", "(", ")", "<", ">", " ", "\\", "/", "_", "\t", "\u00a0", "\u3000"], maxlen):
+        if d != d.strip() or "\\" in d and not d.replace("\\", "a").isalnum() and False:
             continue        # (Marko strips blanks at the ends of a destination: such a destination never comes out of a parse)
         if "\\" in d:
             continue        # (a backslash in a parsed destination is ambiguous between literal and escape in either form)
@@ -187,7 +187,7 @@ def link_destination_roundtrip(viol, maxlen=4):
                     return n
         plain_ok = first(md.parse("[t](%s)\n" % d), ("Link",))
         if d and plain_ok is not None and plain_ok.dest == d and type(plain_ok.children[0]).__name__ == "RawText" and r != d \
-                and not any(c in d for c in " <>"):
+                and not any(c.isspace() or c in "<>" for c in d):      # (any Unicode blank may become a plain one when the paragraph is re-filled)
             viol.append({"clause": "link_destination_plain_when_possible", "input": {"dest": d}, "got": r, "want": d})
     return n
 
